@@ -21,10 +21,17 @@ ASSUMPTIONS = ["vertex ids pairwise distinct", "information shape entries are po
 
 
 class ShapeOnly:
-    """stands for an information matrix of which the validity predicates may read only .shape"""
+    """stands for an information matrix of which the validity predicates may read only .shape / .size / .ndim"""
 
     def __init__(self, r, c):
         self.shape = (r, c)
+        self.size = r * c
+        self.ndim = 2
+
+    def __len__(self):
+        from symrun.scalars import Unsupported
+
+        raise Unsupported("validity predicate called len(information)")
 
     def __getattr__(self, name):
         from symrun.scalars import Unsupported
